@@ -486,12 +486,19 @@ fn update_weights(
     let (_, mut lp_weight) =
         get_latest_address_weight(deps.storage, &env.contract.address, &lp_asset.denom)?;
 
+    // the user's weight for this LP
+    let (_, mut address_lp_weight) =
+        get_latest_address_weight(deps.storage, receiver, &lp_asset.denom)?;
+
     if fill {
         // filling position
         lp_weight = lp_weight.checked_add(weight)?;
     } else {
-        // closing position
-        lp_weight = lp_weight.saturating_sub(weight);
+        // closing position. The weight of a position that was filled in several steps can be
+        // slightly lower than the weight of its total amount, in which case the user's weight
+        // saturates at zero. The contract's weight must drop by what the user's weight drops,
+        // not more, so it keeps covering everybody else's weight.
+        lp_weight = lp_weight.saturating_sub(weight.min(address_lp_weight));
     }
 
     // update the LP weight for the contract
@@ -506,9 +513,6 @@ fn update_weights(
     )?;
 
     // update the user's weight for this LP
-    let (_, mut address_lp_weight) =
-        get_latest_address_weight(deps.storage, receiver, &lp_asset.denom)?;
-
     if fill {
         // filling position
         address_lp_weight = address_lp_weight.checked_add(weight)?;
